@@ -258,7 +258,15 @@ func c09dir(c *h.Ctx, idx int, mask int, taskForm string, fromSub, staged bool) 
 	if fromSub {
 		cwd = real + "/sub/deeper"
 	}
-	res := tc{Dir: cwd}.run(c, "-o", "raw", target)
+	// taskctl's own $PWD may be stale (a launcher that changes directory without updating it): the directory taskctl
+	// was started in is its working directory, whatever $PWD says
+	var penv []string
+	if idx%3 == 1 {
+		penv = []string{"PWD=" + real + "/stagedir"}
+	} else if idx%3 == 2 {
+		penv = []string{"PWD=" + real}
+	}
+	res := tc{Dir: cwd, Env: penv}.run(c, "-o", "raw", target)
 	c.Eval(1)
 	want := cwd
 	switch {
